@@ -348,6 +348,8 @@ func (e *Engine) applyContract(st *State, in ssa.Instruction, t callTarget, k fu
 		st.ctx.note("assumed contract (dependency): %s", c.PkgPath+"::"+c.Key)
 	} else if c.Trusted != "" {
 		st.ctx.note("trusted contract (body not verified): %s — %s", c.Key, c.Trusted)
+	} else if c.NoBody {
+		st.ctx.note("assumed contract on /repo code (`nobody`: used at call sites, its body is not verified): %s", c.PkgPath+"::"+c.Key)
 	}
 	env := e.contractEnv(st, t, nil)
 	for i, rq := range c.Requires {
